@@ -48,3 +48,4 @@ pub fn bytes32() -> impl Strategy<Value = [u8; 32]> {
 pub fn pick(sel: u16, n: usize) -> usize {
     ((sel as usize) * n) >> 16
 }
+pub mod tx;
